@@ -210,7 +210,13 @@ func run(cf cfg, path []int, depth int) (string, bool) {
 				}
 				break
 			}
-			if err != nil && cf.Retryable && !cf.AutoSync && errors.Is(err, singleapp.ErrBufferFull) && !comp {
+			if err != nil && cf.Retryable && !cf.AutoSync && errors.Is(err, singleapp.ErrBufferFull) {
+				if comp || cf.Multi {
+					// resource limit of this configuration (retryable sync without autosync: the write buffer holds
+					// everything not yet synced): what a refused append of a compressed record / across chunks leaves
+					// behind is not defined by the property; the sequence is not extended
+					return "", true
+				}
 				// documented: Sync must be called to free buffer space; the first n bytes were taken
 				m.data = append(m.data, bs[:n]...)
 				break
